@@ -2936,6 +2936,55 @@ def corpus_cases(ctx, crcmod):
         ctx.correspond("corpus", pairs)
 
 
+# ------------------------------------------------------------------------------------------------
+# history / object-identity probes (harness/histories.py): the five calculators + their front ends, described once
+def ENTRY_POINTS():
+    import histories as H
+
+    crcmod, CRC8, CRC9, CRC16, CRC32, CrcMasks = lib()
+    masks9 = [CrcMasks.Rate12DataContinuation, CrcMasks.Rate34DataContinuation, CrcMasks.Rate1DataContinuation]
+    masks16 = [CrcMasks.CSBK, CrcMasks.DataHeader, CrcMasks.PiHeader]
+
+    def bits(rng, n=None):
+        n = n if n is not None else rng.choice([28, 28, 16, 80, 87, 135, 183, 96])
+        kind = rng.choice(["random", "random", "zero", "ones"])
+        b = bitarray(n)
+        b.setall(kind == "ones")
+        if kind == "random":
+            b = int2ba(rng.getrandbits(n), length=n)
+        return b
+
+    def octets(rng, n=None):
+        n = n if n is not None else rng.choice([10, 10, 12, 2, 24, 36])
+        return bytes(n) if rng.random() < 0.15 else bytes(rng.getrandbits(8) for _ in range(n))
+
+    # (no observe(): the shared calculators keep a scratch register that every calculation re-initialises first)
+    eps = [
+        H.EP("crc8.calculate", CRC8.calculate, lambda rng: (bits(rng),), domain="bits", draws=2),
+        H.EP("crc8.check", CRC8.check, lambda rng: (bits(rng), rng.getrandbits(8)), kind="check", domain="bits+int"),
+        H.EP("crc9.calculate", CRC9.calculate, lambda rng: (bits(rng), rng.choice(masks9)), domain="bits+mask", draws=2),
+        H.EP("crc9.check", CRC9.check, lambda rng: (bits(rng), rng.getrandbits(9), rng.choice(masks9)), kind="check"),
+        H.EP("crc16.calculate", CRC16.calculate, lambda rng: (octets(rng), rng.choice(masks16)), domain="octets+mask", draws=2),
+        H.EP("crc16.check", CRC16.check, lambda rng: (octets(rng), rng.getrandbits(16), rng.choice(masks16)), kind="check"),
+        H.EP("crc32.calculate", CRC32.calculate, lambda rng: (octets(rng),), domain="octets", draws=2),
+        H.EP("crc32.check", CRC32.check, lambda rng: (octets(rng), rng.getrandbits(32)), kind="check"),
+    ]
+    # the engine itself under every configuration of the module (same message through calculators of other width / polynomial),
+    # plain and table based; one long-lived calculator object per configuration AND a calculator built per call
+    for fam in ("Crc7", "Crc8", "Crc9", "Crc16", "Crc32"):
+        E = getattr(crcmod, fam, None)
+        if E is None:
+            continue
+        for member in list(E)[:3]:
+            for table in (False, True):
+                tag = f"engine.{fam}.{member.name}{'.table' if table else ''}"
+                shared = crcmod.BitCrcCalculator(member, table)
+                eps.append(H.EP(f"{tag}.shared", shared.calculate_checksum, lambda rng: (bits(rng),), domain="bits", group="engine"))
+                eps.append(H.EP(f"{tag}.new", (lambda b, member=member, table=table: crcmod.BitCrcCalculator(member, table).calculate_checksum(b)),
+                                lambda rng: (bits(rng),), domain="bits", group="engine"))
+    return eps
+
+
 def run(ctx):
     ctx.rule = (
         "engine: for each of the five ETSI configurations every length 0..120 (thorough 0..400) with 2-3 random contents "
@@ -3023,6 +3072,9 @@ def run(ctx):
     ambient_cases(ctx)
     returned_object_cases(ctx, crcmod, CRC16, CRC9, CRC32, CrcMasks)
     history_cases(ctx, (crcmod, CRC8, CRC9, CRC16, CRC32, CrcMasks))
+    import histories
+
+    histories.run(ctx, ENTRY_POINTS, max_eps=20)
 
 
 # ------------------------------------------------------------------------------------------------
@@ -3033,6 +3085,10 @@ def replay(obj):
     if not inp:
         print(json.dumps(obj.get("no_longer_checks") or obj.get("correspondence_differences"), indent=1)[:4000])
         return 1
+    if str(f.get("kind", "")).startswith("history:"):
+        import histories
+
+        return histories.replay(inp, ENTRY_POINTS)
     if inp.get("ambient"):
         # found under an ambient interpreter / process state: the whole fixed sample is run again under that state
         a = inp["ambient"]
